@@ -57,6 +57,37 @@ def render(results, fmt, via, lang):
         set_global_language_to(saved)
 
 
+def render_interrupted(results, fmt, via, lang, after):
+    """F10: the rendering is pre-empted after `after` line events inside the repository's code and a
+    KeyboardInterrupt is delivered there (what Ctrl-C or a signal-driven timeout does at an arbitrary
+    instant).  returns ('interrupted', after) or, when the rendering finished earlier, its result"""
+    import sys
+    from depsim import env
+    root = env.repo_root().rstrip('/') + '/depccg/'
+    count = [0]
+
+    def local(frame, event, arg):
+        if event == 'line':
+            count[0] += 1
+            if count[0] == after:
+                raise KeyboardInterrupt()
+        return local
+
+    def glob(frame, event, arg):
+        if event == 'call' and frame.f_code.co_filename.startswith(root) and count[0] < after:
+            return local
+        return None
+
+    old = sys.gettrace()
+    sys.settrace(glob)
+    try:
+        return render(results, fmt, via, lang)
+    except KeyboardInterrupt:
+        return ('interrupted', after)
+    finally:
+        sys.settrace(old)
+
+
 class ReferenceRenderer(object):
     """the stateless reference model: a process forked BEFORE the first operation of the history (it
     holds the pristine results and pristine module state of the printers) that answers each request
@@ -180,6 +211,12 @@ class C18(ParserSessionProp):
                 if via == 'flat':
                     via = f'flat:{rng.randrange(12)}'
                 hist.append({'op': 'render', 'format': fmt, 'via': via})
+        # F10: one rendering of every fourth history is pre-empted at an arbitrary instant (Ctrl-C, timeout signal)
+        irng = gen.stream(seed, 'C18:interrupt', index)
+        renders = [h for h in hist if h['op'] == 'render']
+        if renders and irng.random() < 0.25:
+            h = irng.choice(renders[:-1] or renders)
+            h['interrupt_after'] = irng.choice([1, 2, 5, 10, 25, 60, 150, 400, 1000, 2500]) + irng.randrange(0, 8)
         spec['history'] = hist
         spec['start_lang'] = lang
         # results as a user may hold them: n-best lists re-ranked / hand-assembled in another order
@@ -223,6 +260,7 @@ class C18(ParserSessionProp):
             bump(stats, 'probe:history_over_results_with_placeholder')
         if any(len(r) > 1 for r in results):
             bump(stats, 'probe:history_over_nbest_lists')
+        interrupted_before = False
         for hi, h in enumerate(spec['history']):
             if h['op'] == 'set_language':
                 lang = h['lang']
@@ -230,7 +268,28 @@ class C18(ParserSessionProp):
                 continue
             bump(stats, 'evaluations')
             bump(stats, 'render:' + h['format'])
-            got = render(results, h['format'], h['via'], lang)
+            if h.get('interrupt_after'):
+                got = render_interrupted(results, h['format'], h['via'], lang, h['interrupt_after'])
+                if got[0] == 'interrupted':
+                    # nothing to compare the torn output with; the objects must be untouched and every later
+                    # rendering must still equal that of a fresh copy
+                    bump(stats, 'fault:F10_rendering_interrupted')
+                    bump(stats, 'interrupted:' + h['format'])
+                    log.append((h['format'], 'interrupted', h['interrupt_after']))
+                    if snapshot(results) != snap0:
+                        v = Violation(oracle='state_unchanged',
+                                      message=(f'operation #{hi} render({h["format"]}, via {h["via"]}, lang {lang}) was interrupted '
+                                               f'after {h["interrupt_after"]} lines and left the shared result objects changed: '
+                                               f'{_first_diff(snap0, snapshot(results))}'),
+                                      signature={'format': h['format'], 'fault': 'F10'})
+                        v['property'] = self.id
+                        v['op_index'] = hi
+                        result['violations'].append(v)
+                        break
+                    interrupted_before = True
+                    continue
+            else:
+                got = render(results, h['format'], h['via'], lang)
             want = reference.render(h['format'], h['via'], lang)
             log.append((h['format'], got[0], digest(got[1])))
             if got[0] == 'exc':
@@ -248,7 +307,8 @@ class C18(ParserSessionProp):
                               message=(f'operation #{hi} render({h["format"]}, via {h["via"]}, lang {lang}) after history '
                                        f'{[x.get("format", x.get("lang")) for x in spec["history"][:hi]]} gives '
                                        f'{_short(got)} but a fresh copy gives {_short(want)}'),
-                              signature={'format': h['format'], 'got': got[0], 'want': want[0]})
+                              signature=dict({'format': h['format'], 'got': got[0], 'want': want[0]},
+                                             **({'after': 'F10'} if interrupted_before else {})))
             if v is not None:
                 v['property'] = self.id
                 v['op_index'] = hi
